@@ -163,11 +163,8 @@ def main(ck):
         if 'rank-deficient' not in str(e):
           raise
         # Newton's Cholesky of M + J'DJ failed: legitimate only for numerically singular problems (stiffness/inertia
-        # ratio > 1e8, e.g. R ~ 1e-15 rows); measured on a CG run of the same state (no Hessian), else a violation
-        dc = run(lib, m, d0, CG, 0, E.mjJAC_DENSE, 0, 0.0, 1)
-        Pc = cons.Problem(lib, m, dc)
-        Yc = np.linalg.solve(np.linalg.cholesky(Pc.M), Pc.J.T)
-        if 1.0 + float(np.linalg.eigvalsh((Yc * Pc.D) @ Yc.T)[-1]) > 1e8:
+        # ratio > 1e8, e.g. R ~ 1e-15 rows); measured on a dense CG pass of the same state, else a violation
+        if gc.illconditioned_hessian(lib, m, d0):
           ck.discard('illconditioned-hessian')
           return
         raise
@@ -243,7 +240,8 @@ def main(ck):
       if solver != PGS:
         fr = float(np.linalg.norm(fE - fO) / (EPS * np.linalg.norm(fscale) + 1e-300))
         stats['max_force_eps'] = max(stats['max_force_eps'], fr)
-        if fr > K_FORCE:
+        # (the primal solvers update J*qacc - aref incrementally: one rounding error of this scale per iteration)
+        if fr > K_FORCE * (1 + int(np.sum(niter[:min(ni_used, E.mjNISLAND)]))):
           raise Violation('%s: efc_force differs from the documented force law -grad s(J qacc - aref): |df|=%.3g (%.3g eps '
                           'of the rounding scale), nefc=%d' % (tag, np.linalg.norm(fE - fO), fr, Q.nefc), bucket='force-law')
       else:
@@ -386,7 +384,7 @@ def main(ck):
                                newton_iters=[int(x) for x in niter[:3]]) if nt else None,
             labels=labs)
 
-  ck.run_hypothesis(test, gc.cases(max_bodies=5 if ck.quick else 7), ck.budget(800, 9000), name='solvers')
+  ck.run_hypothesis(test, gc.cases(max_bodies=5 if ck.quick else 7), ck.budget(600, 9000), name='solvers')
   ck.extra['tolerances'] = dict(K_GRAD=K_GRAD, K_FORCE=K_FORCE, K_DATA=K_DATA, K_COST=K_COST, C_REP=C_REP, PGS_GAP=PGS_GAP)
   ck.extra['worst_observed'] = {k: float('%.4g' % v) for k, v in stats.items()}
 
